@@ -256,26 +256,7 @@ def run(chk):
            'alternative that occurs twice contributes once, so `A | A` no longer '
            'equals two rules' % norm(val, 70), fi=dj, node=pr_.node)
 
-  # `x in [a, b]` equals the alternatives x == a | x == b: one row per list
-  # position.  The translation of an inclusion is therefore an unnesting (a
-  # join with the list), except for the declared Container(...) form, which is a
-  # membership constraint by definition.
-  ei = FnView(repo, 'rule_translate.ExtractInclusionStructure')
-  unn = [n for n, c in ei.all_calls() if call_tail(c) == 'append' and
-         (receiver(c) or '').endswith('unnestings')]
-  declared = set()
-  for n in ei.cfg.stmt_nodes():
-    for e, val in ei.guards(n):
-      if val and any(const_str(c) == 'Container' for c in ast.walk(e)):
-        declared.add(n)
-  if not unn:
-    raise AnalysisError('ExtractInclusionStructure: unnesting not found')
-  chk.ob('C11-R5', ei.cfg.must_pass_before(ei.cfg.exit, set(unn) | declared), None,
-         'an inclusion is translated as an unnesting of the list on every path '
-         '(only Container(..) lists are membership tests)',
-         'some inclusions are turned into a membership constraint instead of a '
-         'join with the list: `x in [a, a]` then yields one row where the two '
-         'alternatives x == a | x == a yield two', fi=ei.fi)
+  K.inclusion_is_unnesting(chk, 'C11-R5')
 
   chk.rule('C11-R3', 'the `=` and `->` library predicates exist in every '
            'dialect library with one common definition', min_instances=16)
